@@ -22,6 +22,7 @@ META = {
   "nested-atomic emulation (hist*_preempt): at the entry of sem_wait/sem_post of one process the other process may run one whole acquire/release (depth 1)",
   "names_len*_realkey: REAL name handling (name + suffix) and REAL p_ipc_get_platform_key over the kernel model in string-name mode, concrete names of 1..100 characters "
   "(pairs differing only in the last / only in the first character, and an equal copy); run with --max-field-sensitivity-array-size 256 so that heap strings > 64 bytes stay constant",
+  "reentrant_sem_new_at*: two threads open different names; the second thread's whole p_semaphore_new runs at the k-th allocator entry of the first (one query per k, real SHA-1)",
   "initval_*: init_val is a fully symbolic pint; negative values are the documented invalid argument (NULL); histories draw init from 0..VMAX",
   "hist*_eintr2: sem_wait fails with EINTR (no effect) at a symbolic subset (<=2) of its invocations inside every acquire of the history",
   "allocator never fails (C18), EINTR only in hist*_eintr* (rest: C19), printf empty"],
@@ -80,7 +81,11 @@ def names(n, kind=0):
              flags=["--max-field-sensitivity-array-size", "256"],
              funcs=["p_semaphore_new", "p_shm_new", "p_shm_buffer_new", "p_ipc_get_platform_key"][kind:kind + 1] + ["p_ipc_get_platform_key"],
              bounds={"name_length": n, "names": "A, A with another last character, A with another first character, an equal copy of A (concrete)"})
+def reentrant():
+    # p_semaphore_new on two different names by two threads, overlapping at each of the 10 allocator entries of the outer call (harness shared with C07)
+    import C07
+    return [C07.reentrant(0, k) for k in range(1, 11)]
 def queries(tier):
     if tier == "quick":
-        return [realkey()] + [names(n) for n in NAME_LENS] + [initval(False), initval(True), crash(3), hist(5, 3), hist(4, 3, preempt=True), hist(3, 2, eintr=2), hist(3, 2, kfdemo=True)]
-    return [realkey()] + [names(n) for n in NAME_LENS] + [initval(False), initval(True), crash(4), hist(6, 3, vmax=3, timeout=3000), hist(5, 3, preempt=True, timeout=3000), hist(4, 3, eintr=2), hist(3, 2, kfdemo=True)]
+        return [realkey()] + [names(n) for n in NAME_LENS] + reentrant() + [initval(False), initval(True), crash(3), hist(5, 3), hist(4, 3, preempt=True), hist(3, 2, eintr=2), hist(3, 2, kfdemo=True)]
+    return [realkey()] + [names(n) for n in NAME_LENS] + reentrant() + [initval(False), initval(True), crash(4), hist(6, 3, vmax=3, timeout=3000), hist(5, 3, preempt=True, timeout=3000), hist(4, 3, eintr=2), hist(3, 2, kfdemo=True)]
